@@ -18,6 +18,8 @@ RULE = ('Hypothesis draws the state dimension d (1..4), snapshot count m (1..8, 
         'the Gram matrix (independent arrays, the same array twice, and overlapping lagged views of one trajectory); HOCUR with ranks >= m (hence >= the true ranks; as a number or a list, the list optionally re-used from an earlier call on rank-one data), repeats 1..3, multiplier 2..10. Oracle: the explicit '
         'loop Psi[i_1..i_p, j] = prod_k phi_k^{i_k}(x_j). Non-trivial: m = 1, a mode with a single function, mixed families, '
         'duplicated snapshots, add_one = False, or d = 1.')
+RULE += (' ' + 'Added classes: basis objects used before on another data matrix, coordinate-function bases on data of size 1e-9 ... 1e3 for HOCUR.')
+
 ASSUMPTIONS = [
     'oracle: explicit Python loop over multi-indices and snapshots evaluating the basis functions point-wise',
     'data entries in [-1, 1]; basis-function values are O(1)',
